@@ -1,5 +1,7 @@
 import Model.Pass.Lower
 import Proofs.Lemmas.Rewrite
+import Proofs.Lemmas.LowerStruct
+import Proofs.Lemmas.Dco
 import Mathlib.Tactic.Ring
 /-!
 # C09 — lowering / restructuring passes preserve behaviour and meet their postconditions
@@ -184,5 +186,260 @@ theorem nand_synth_and_netlist (b : Block) (st : State) (pre post : List Net) (a
       rw [Nat.mod_eq_of_lt (by omega)]
       omega
   · exact hpost
+
+/-! ### the four `net_transform` passes on whole netlists, for every run
+
+`LowerNet.lowerBlock rule b` is the block after the pass (every net kept or replaced by its gadget over fresh
+temporaries, `Model/Pass/LowerNet.lean`; compared with the real pass output, up to the names of the temporaries, on
+every run).  `wfB` is the executable well-formedness the passes assume (wires of the block, one combinational
+driver per wire, `sanity_check_net`'s destination-width rule).  `AgreeRuns size` relates two traces that have the
+same number of cycles and agree, in every cycle, on every wire of the original block: Inputs, Outputs, registers
+and all internal wires. -/
+open LowerNet
+
+/-- **`nand_synth` preserves every run**: any well-formed block (any widths), any schedule of its nets, any
+    initial register/memory state, any input history of any length. -/
+theorem nand_synth_run_eq (b : Block) (hwf : wfB bitPreB b = true) (order : List Net)
+    (hord : ∀ n ∈ order, n ∈ b.nets) (st : State) (inps : List Env) :
+    AgreeRuns b.wires.size (run (lowerBlock nandRule b) (lowerOrder nandRule b order) st inps)
+      (run b order st inps) :=
+  lower_run_preserves nandRule BitPre nand_sound b (wfB_bit b hwf) order hord st inps
+
+/-- **`and_inverter_synth` preserves every run** -/
+theorem and_inverter_synth_run_eq (b : Block) (hwf : wfB bitPreB b = true) (order : List Net)
+    (hord : ∀ n ∈ order, n ∈ b.nets) (st : State) (inps : List Env) :
+    AgreeRuns b.wires.size (run (lowerBlock aigRule b) (lowerOrder aigRule b order) st inps)
+      (run b order st inps) :=
+  lower_run_preserves aigRule BitPre aig_sound b (wfB_bit b hwf) order hord st inps
+
+/-- **`two_way_concat` preserves every run** (operand values need not even be in range: the chain of
+    two-operand concats is congruent to the n-operand concat modulo its width) -/
+theorem two_way_concat_run_eq (b : Block) (hwf : wfB structPreB b = true) (order : List Net)
+    (hord : ∀ n ∈ order, n ∈ b.nets) (st : State) (inps : List Env) :
+    AgreeRuns b.wires.size (run (lowerBlock twoWayRule b) (lowerOrder twoWayRule b order) st inps)
+      (run b order st inps) :=
+  lower_run_preserves twoWayRule StructPre twoWay_sound b (wfB_struct b hwf) order hord st inps
+
+/-- **`one_bit_selects` preserves every run** (every index tuple: strides, reversals, repeats) -/
+theorem one_bit_selects_run_eq (b : Block) (hwf : wfB structPreB b = true) (order : List Net)
+    (hord : ∀ n ∈ order, n ∈ b.nets) (st : State) (inps : List Env) :
+    AgreeRuns b.wires.size (run (lowerBlock oneBitRule b) (lowerOrder oneBitRule b order) st inps)
+      (run b order st inps) :=
+  lower_run_preserves oneBitRule StructPre oneBit_sound b (wfB_struct b hwf) order hord st inps
+
+/-- the architectural state (registers and memories) after every cycle is *equal*, not just the wire values -/
+theorem lowering_state_eq (r : Rule) (Pre : Block → Net → Prop) (hr : RuleSound r Pre) (b : Block) (hwf : WF Pre b)
+    (order : List Net) (hord : ∀ n ∈ order, n ∈ b.nets) (st : State) (inp : Env) :
+    (step (lowerBlock r b) (lowerOrder r b order) st inp).2 = (step b order st inp).2 :=
+  (step_preserves b _ order _ _ (lower_stepHyp r Pre hr b hwf order hord) st inp).2
+
+/-! postconditions -/
+
+theorem mem_lower_nets (r : Rule) (b : Block) (m : Net) (hm : m ∈ (lowerBlock r b).nets) :
+    ∃ n ∈ b.nets, m ∈ expand r b n := by
+  simpa [lowerBlock, List.mem_flatMap] using hm
+
+/-- **`nand_synth` postcondition**: if every `&`, `|`, `^` net has two operands (`sanity_check_net`), no such
+    net is left. -/
+theorem nand_synth_post (b : Block)
+    (harity : ∀ n ∈ b.nets, (n.op = .and ∨ n.op = .or ∨ n.op = .xor) → ∃ a c, n.args = [a, c]) :
+    ∀ m ∈ (lowerBlock nandRule b).nets, m.op ≠ .and ∧ m.op ≠ .or ∧ m.op ≠ .xor := by
+  intro m hm
+  obtain ⟨n, hn, hmn⟩ := mem_lower_nets _ _ _ hm
+  simp only [expand] at hmn
+  by_cases hand : n.op = .and
+  · obtain ⟨a, c, hargs⟩ := harity n hn (Or.inl hand)
+    simp only [nandRule, hand, hargs, wNet, List.mem_cons, List.not_mem_nil, or_false] at hmn
+    rcases hmn with rfl | rfl | rfl <;> simp
+  by_cases hor : n.op = .or
+  · obtain ⟨a, c, hargs⟩ := harity n hn (Or.inr (Or.inl hor))
+    simp only [nandRule, hor, hargs, wNet, List.mem_cons, List.not_mem_nil, or_false] at hmn
+    rcases hmn with rfl | rfl | rfl | rfl <;> simp
+  by_cases hxor : n.op = .xor
+  · obtain ⟨a, c, hargs⟩ := harity n hn (Or.inr (Or.inr hxor))
+    simp only [nandRule, hxor, hargs, wNet, List.mem_cons, List.not_mem_nil, or_false] at hmn
+    rcases hmn with rfl | rfl | rfl | rfl | rfl <;> simp
+  · have hnone : nandRule b n = none := by
+      unfold nandRule
+      split <;> simp_all
+    rw [hnone] at hmn
+    simp only [List.mem_cons, List.not_mem_nil, or_false] at hmn
+    subst hmn
+    exact ⟨hand, hor, hxor⟩
+
+/-- **`and_inverter_synth` postcondition**: no `|`, `^` or `nand` net is left. -/
+theorem and_inverter_synth_post (b : Block)
+    (harity : ∀ n ∈ b.nets, (n.op = .or ∨ n.op = .xor ∨ n.op = .nand) → ∃ a c, n.args = [a, c]) :
+    ∀ m ∈ (lowerBlock aigRule b).nets, m.op ≠ .or ∧ m.op ≠ .xor ∧ m.op ≠ .nand := by
+  intro m hm
+  obtain ⟨n, hn, hmn⟩ := mem_lower_nets _ _ _ hm
+  simp only [expand] at hmn
+  by_cases hor : n.op = .or
+  · obtain ⟨a, c, hargs⟩ := harity n hn (Or.inl hor)
+    simp only [aigRule, hor, hargs, wNet, List.mem_cons, List.not_mem_nil, or_false] at hmn
+    rcases hmn with rfl | rfl | rfl | rfl | rfl <;> simp
+  by_cases hxor : n.op = .xor
+  · obtain ⟨a, c, hargs⟩ := harity n hn (Or.inr (Or.inl hxor))
+    simp only [aigRule, hxor, hargs, wNet, List.mem_cons, List.not_mem_nil, or_false] at hmn
+    rcases hmn with rfl | rfl | rfl | rfl | rfl | rfl | rfl | rfl <;> simp
+  by_cases hnand : n.op = .nand
+  · obtain ⟨a, c, hargs⟩ := harity n hn (Or.inr (Or.inr hnand))
+    simp only [aigRule, hnand, hargs, wNet, List.mem_cons, List.not_mem_nil, or_false] at hmn
+    rcases hmn with rfl | rfl | rfl <;> simp
+  · have hnone : aigRule b n = none := by
+      unfold aigRule
+      split <;> simp_all
+    rw [hnone] at hmn
+    simp only [List.mem_cons, List.not_mem_nil, or_false] at hmn
+    subst hmn
+    exact ⟨hor, hxor, hnand⟩
+
+/-- **`two_way_concat` postcondition**: every concat left has at most two operands. -/
+theorem two_way_concat_post (b : Block) :
+    ∀ m ∈ (lowerBlock twoWayRule b).nets, m.op = .concat → m.args.length ≤ 2 := by
+  intro m hm hop
+  obtain ⟨n, hn, hmn⟩ := mem_lower_nets _ _ _ hm
+  simp only [expand] at hmn
+  cases hr : twoWayRule b n with
+  | none =>
+    rw [hr] at hmn
+    simp only [List.mem_cons, List.not_mem_nil, or_false] at hmn
+    subst hmn
+    unfold twoWayRule at hr
+    split at hr
+    · simp at hr
+    · rename_i hne
+      match hargs : m.args with
+      | [] => simp
+      | [_] => simp
+      | [_, _] => simp
+      | a0 :: a1 :: a2 :: rest => exact absurd hargs (hne a0 a1 a2 rest hop)
+  | some g =>
+    rw [hr] at hmn
+    unfold twoWayRule at hr
+    split at hr
+    · simp only [Option.some.injEq] at hr
+      subst hr
+      simp only [List.mem_cons, List.mem_append, List.not_mem_nil, or_false] at hmn
+      rcases hmn with (rfl | hmn) | rfl
+      · simp
+      · -- a link of the chain has two operands
+        have : ∀ (rest : List Nat) (k : Nat), ∀ x ∈ catChain (base twoWayRule b n.dest) rest k, x.args.length = 2 := by
+          intro rest
+          induction rest with
+          | nil => intro k x hx; simp [catChain] at hx
+          | cons a rest ih =>
+            intro k x hx
+            simp only [catChain, List.mem_cons] at hx
+            rcases hx with rfl | hx
+            · rfl
+            · exact ih _ x hx
+        rw [this _ _ m hmn]
+      · simp [wNet]
+    · simp at hr
+
+/-- **`one_bit_selects` postcondition**: every select left (with one operand, `sanity_check_net`) takes at
+    most one bit. -/
+theorem one_bit_selects_post (b : Block)
+    (harity : ∀ n ∈ b.nets, ∀ idx, n.op = .select idx → ∃ a, n.args = [a]) :
+    ∀ m ∈ (lowerBlock oneBitRule b).nets, ∀ idx, m.op = .select idx → idx.length ≤ 1 := by
+  intro m hm idx hop
+  obtain ⟨n, hn, hmn⟩ := mem_lower_nets _ _ _ hm
+  simp only [expand] at hmn
+  cases hr : oneBitRule b n with
+  | none =>
+    rw [hr] at hmn
+    simp only [List.mem_cons, List.not_mem_nil, or_false] at hmn
+    subst hmn
+    obtain ⟨a, hargs⟩ := harity m hn idx hop
+    unfold oneBitRule at hr
+    split at hr
+    · simp at hr
+    · simp at hr
+    · rename_i hne1 hne2
+      match idx, hop with
+      | [], _ => simp
+      | [i], hop => exact absurd hargs (hne1 i a hop)
+      | i :: j :: rest, hop => exact absurd hargs (hne2 i j rest a hop)
+  | some g =>
+    rw [hr] at hmn
+    unfold oneBitRule at hr
+    split at hr
+    · simp only [Option.some.injEq] at hr
+      subst hr
+      simp only [wNet, List.mem_cons, List.not_mem_nil, or_false] at hmn
+      rcases hmn with rfl | rfl
+      · simp only [Op.select.injEq] at hop
+        subst hop
+        simp
+      · simp at hop
+    · simp only [Option.some.injEq] at hr
+      subst hr
+      simp only [List.mem_cons, List.mem_append, List.not_mem_nil, or_false] at hmn
+      rcases hmn with hmn | rfl | rfl
+      · have : ∀ (l : List Nat) (k : Nat) (a : Nat), ∀ x ∈ bitNets (base oneBitRule b n.dest) a l k,
+            ∃ i, x.op = .select [i] := by
+          intro l
+          induction l with
+          | nil => intro k a x hx; simp [bitNets] at hx
+          | cons i rest ih =>
+            intro k a x hx
+            simp only [bitNets, List.mem_cons] at hx
+            rcases hx with rfl | hx
+            · exact ⟨i, rfl⟩
+            · exact ih _ _ x hx
+        obtain ⟨i, hi⟩ := this _ _ _ m hmn
+        rw [hi] at hop
+        simp only [Op.select.injEq] at hop
+        subst hop
+        simp
+      · simp at hop
+      · simp [wNet] at hop
+    · simp at hr
+
+/-! non-vacuity: a concrete well-formed block the theorems apply to, and the passes really rewrite it -/
+
+def exBlock : Block :=
+  { wires := #[⟨"a", 3, .input⟩, ⟨"c", 3, .input⟩, ⟨"x", 3, .plain⟩, ⟨"o", 2, .output⟩, ⟨"k", 9, .plain⟩,
+               ⟨"s", 3, .plain⟩]
+    nets := [⟨.xor, [0, 1], [2]⟩, ⟨.or, [2, 0], [3]⟩, ⟨.concat, [0, 1, 2], [4]⟩, ⟨.select [2, 0, 2], [4], [5]⟩]
+    mems := [] }
+
+example : wfB bitPreB exBlock = true ∧ wfB structPreB exBlock = true := by decide
+example : (lowerBlock nandRule exBlock).nets.length = 11 ∧ (lowerBlock twoWayRule exBlock).nets.length = 6 ∧
+    (lowerBlock oneBitRule exBlock).nets.length = 8 := by decide
+
+/-! ### `direct_connect_outputs` on whole netlists, for every run
+
+`Dco.directConnectOutputs b` is the block after the pass (rounds of retargeting the producer of `x` at the Output `o`
+and dropping the net `o <-- w -- x`, until nothing changes; `Model/Pass/Dco.lean`, compared net by net with the real
+pass output on every run).  `Dco.chainOkB` is the executable side condition: every block the pass goes through
+passes the structural checks of `sanity_check` used by the proof and its scheduler order is a dependency order of
+its combinational nets (evaluated by the driver on every tested block). -/
+open Dco in
+/-- **`direct_connect_outputs` preserves every Output in every cycle of every run**, from any initial state, under
+    the scheduler's dependency orders (by `spec_order_independent` any other dependency order gives the same values).
+    The key fact is that truncating a primitive's documented result to a narrower destination is the primitive at
+    that width (`Dco.comb_trunc`, all 15 primitives incl. subtraction and inversion). -/
+theorem direct_connect_outputs_run_eq (b : Block) (h : chainOkB (b.nets.length + 1) b = true)
+    (st : State) (inps : List Env) :
+    AgreeOn (fun x => b.kind x = .output)
+      (run (directConnectOutputs b) (orderOf (directConnectOutputs b)) st inps) (run b (orderOf b) st inps) :=
+  dco_run (b.nets.length + 1) b h st inps
+
+open Dco in
+/-- **`direct_connect_outputs` postcondition**: no net's destination is read only by a `w` net into an Output. -/
+theorem direct_connect_outputs_post (b : Block) :
+    ∀ p ∈ (directConnectOutputs b).nets, outW? (directConnectOutputs b) p = none :=
+  dco_post b
+
+/-- non-vacuity: a chain `a & c -> x -> w -> t -> w -> o` needs two rounds and ends as `o = a & c` -/
+def exDco : Block :=
+  { wires := #[⟨"a", 3, .input⟩, ⟨"c", 3, .input⟩, ⟨"x", 3, .plain⟩, ⟨"t", 3, .plain⟩, ⟨"o", 2, .output⟩]
+    nets := [⟨.and, [0, 1], [2]⟩, ⟨.w, [2], [3]⟩, ⟨.w, [3], [4]⟩]
+    mems := [] }
+
+example : Dco.chainOkB (exDco.nets.length + 1) exDco = true ∧
+    (Dco.directConnectOutputs exDco).nets = [⟨.and, [0, 1], [4]⟩] := by decide
 
 end Pyrtl.C09
